@@ -1,3 +1,76 @@
 import Abverif.Model.WsSpec
+import Abverif.Proofs.Lemmas.WsExt
+/-
+C16 — configured payload limits are enforced early and never by truncation (model level; the compression
+cap is outside the model and tied by the implementation-level oracle only).
+-/
 namespace Abverif.Ws
+
+/-- **send_refused_writes_nothing**: an over-limit `sendMessage` raises `PayloadExceededError` and changes nothing
+else — no octet is written, nothing is queued, no key is drawn -/
+theorem send_refused_writes_nothing (s : S) (pl : Bytes) (b : Bool) (f : Option Nat) (sy : Bool)
+    (hopen : s.st = .opened) (hlim : 0 < s.cfg.maxMsg) (hover : s.cfg.maxMsg < pl.length) :
+    sendMessage s pl b f sy = s.emit (.raised .payloadExceeded) := by
+  unfold sendMessage
+  simp [hopen, hlim, hover]
+
+/-- a message at or below the limit is not refused (the limit is inclusive) -/
+theorem send_within_limit_not_refused (s : S) (pl : Bytes) (b : Bool) (sy : Bool)
+    (hopen : s.st = .opened) (hle : pl.length ≤ s.cfg.maxMsg) (haf : s.cfg.autoFragment = 0) :
+    sendMessage s pl b none sy = sendFrame s (if b then 2 else 1) pl true 0 sy := by
+  unfold sendMessage
+  have : ¬ (0 < s.cfg.maxMsg ∧ s.cfg.maxMsg < pl.length) := by omega
+  simp [hopen, this, haf]
+
+/-- **limit_at_header**: the limits are judged in `onMessageFrameBegin`, i.e. when the frame header has been read and
+before a single payload octet of that frame is looked at: if the declared length pushes the message over
+`maxMessagePayloadSize` the connection is failed with 1009 right there, and the frame buffer is empty -/
+theorem limit_at_header_msg (s : S) (n : Nat) (hf : s.failedByMe = false)
+    (hlim : 0 < s.cfg.maxMsg) (hover : s.cfg.maxMsg < s.totalLen + n) :
+    onMessageFrameBegin s n = failConnection { s with frameData := [], totalLen := s.totalLen + n } 1009 := by
+  unfold onMessageFrameBegin
+  simp [hf, hlim, hover]
+
+theorem limit_at_header_frame (s : S) (n : Nat) (hf : s.failedByMe = false)
+    (hmsg : ¬ (0 < s.cfg.maxMsg ∧ s.cfg.maxMsg < s.totalLen + n))
+    (hlim : 0 < s.cfg.maxFrame) (hover : s.cfg.maxFrame < n) :
+    onMessageFrameBegin s n = failConnection { s with frameData := [], totalLen := s.totalLen + n } 1009 := by
+  unfold onMessageFrameBegin
+  simp only [hf, Bool.not_false, if_true]
+  have h2 : ¬ (decide (0 < s.cfg.maxMsg) && decide (s.cfg.maxMsg < s.totalLen + n)) = true := by simpa using hmsg
+  simp [h2, hlim, hover]
+
+/-- failing with 1009 follows the fail policy: TCP drop (abort) when failByDrop, else a close frame carrying 1009 -/
+theorem fail_1009_drop (s : S) (hst : s.st = .opened) (hfbd : s.cfg.failByDrop = true) :
+    (failConnection s 1009).st = .closed ∧ (failConnection s 1009).failedByMe = true := by
+  unfold failConnection
+  simp [hst, hfbd, dropConnection, S.emit]
+
+theorem fail_1009_close (s : S) (hst : s.st = .opened) (hfbd : s.cfg.failByDrop = false) :
+    failConnection s 1009 = sendCloseFrame { s with failedByMe := true } (some 1009) none false := by
+  unfold failConnection
+  simp [hst, hfbd]
+
+/-- **limit_transparent**: within the limits `onMessageFrameBegin` only does its bookkeeping -/
+theorem limit_transparent (s : S) (n : Nat)
+    (hmsg : ¬ (0 < s.cfg.maxMsg ∧ s.cfg.maxMsg < s.totalLen + n))
+    (hfr : ¬ (0 < s.cfg.maxFrame ∧ s.cfg.maxFrame < n)) :
+    onMessageFrameBegin s n = { s with frameData := [], totalLen := s.totalLen + n } := by
+  unfold onMessageFrameBegin
+  have h1 : ¬ (decide (0 < s.cfg.maxMsg) && decide (s.cfg.maxMsg < s.totalLen + n)) = true := by simpa using hmsg
+  have h2 : ¬ (decide (0 < s.cfg.maxFrame) && decide (s.cfg.maxFrame < n)) = true := by simpa using hfr
+  simp [h1, h2]
+
+/-- once the connection has been failed nothing more is handed to the application (`onMessageEnd` guard) -/
+theorem failed_never_delivers (s : S) (h : s.failedByMe = true) : deliverMessage s = s := by
+  unfold deliverMessage; simp [h]
+
+/-- and nothing more is buffered (`onMessageFrameData` guard) -/
+theorem failed_never_buffers (s : S) (p : Bytes) (h : s.failedByMe = true) : onMessageFrameData s p = s := by
+  unfold onMessageFrameData; simp [h]
+
+/-- the Spec judges the same way: 1009 exactly when a declared length crosses a limit -/
+example : (WsSpec.judge { isServer := false, maxMsg := 3 } [0x82, 0x04]).2.1 = .fail 1009 := by decide
+example : (WsSpec.judge { isServer := false, maxMsg := 3 } [0x82, 0x03, 1, 2, 3]).2.1 = .ok := by decide
+
 end Abverif.Ws
